@@ -24,6 +24,20 @@ def extract(ctx, rule='C17-R1'):
     params = f.params
     if not params:
         raise AnalysisError(rule, 'significant_cloud takes no parameter')
+    # R2: on every path the function returns the list its own loop has just built
+    ret = T.peel(summ.ret)
+    if T.tag(ret) == 'phi':
+        from dataclasses import replace
+        own = [(g, v) for g, v in ret[1] if T.tag(T.peel(v)) == 'loopres']
+        other = [(g, v) for g, v in ret[1] if T.tag(T.peel(v)) != 'loopres']
+        if len(own) == 1:
+            for g, v in other:
+                ctx.violation('C17-R2', f.qname, f.node.name, f.loc(),
+                              f'under {T.show(g, maxlen=100)} the function returns {T.show(v, maxlen=100)} instead of the flags '
+                              'its loop has just computed: an object kept from an earlier call (or shared with one) is not a '
+                              'function of this okta sequence alone - a caller that edits the list it got changes the answer '
+                              'to the next identical question', instance='significant_cloud returns its own accumulator on every path')
+            summ = replace(summ, ret=own[0][1])
     return f, Fold(summ, ex, params[0], rule)
 
 
